@@ -1,1 +1,104 @@
-(* stub: to be written *)
+(* C18 — the bundled validation helper jax2onnx.allclose is a sound oracle.
+   Only statements here; the model and the proofs live in theories/Allclose.v.
+   [compare] is the faithful model of _run_allclose as the code is now (with the
+   `got.astype(expected.dtype)` narrowing cast), [compare_fixed] the model of the repaired code
+   (.scratch/c18/fix.diff).  harness/c18.py ties whichever of the two the running code implements. *)
+From Coq Require Import ZArith QArith Reals Qreals List Bool.
+From J2O Require Import PyLib Dtype Allclose.
+Import ListNotations.
+
+(* THE PROPERTY, at full strength, for the repaired comparison: a "match" verdict implies equal output
+   count and, per output (after the requested NCHW back-transpose / complex re-packing, which change
+   no value): equal shape, equal dtype kind, every element within tolerance (floats; NaN~NaN,
+   inf~same inf) or exactly equal (integers, booleans). *)
+Theorem C18_allclose_sound_fixed :
+  forall rtol atol nchw expected got, (0 <= rtol)%Q -> (0 <= atol)%Q ->
+    compare_fixed rtol atol nchw expected got = true ->
+    length expected = length got /\
+    Forall2 (fun e g => o_shape e = o_shape g /\ o_kind e = o_kind g /\
+                        Forall2 (within rtol atol) (o_vals e) (o_vals g))
+            expected (normalize nchw expected got).
+Proof. exact allclose_sound_fixed. Qed.
+Print Assumptions C18_allclose_sound_fixed.
+
+(* ... and every difference in count, shape, kind or value beyond tolerance is reported *)
+Theorem C18_fixed_reports_every_mismatch :
+  forall rtol atol nchw expected got, (0 <= rtol)%Q -> (0 <= atol)%Q ->
+    ~ (length expected = length got /\
+       Forall2 (output_ok rtol atol) expected (normalize nchw expected got)) ->
+    compare_fixed rtol atol nchw expected got = false.
+Proof. exact fixed_reports_every_mismatch. Qed.
+Print Assumptions C18_fixed_reports_every_mismatch.
+
+(* The same statement is FALSE of the code as it is now: fn returns int32 [1,1,1], the stored model
+   returns float32 [1.5,1.5,1.5], default tolerances -> "match". *)
+Theorem C18_allclose_sound_refuted :
+  exists rtol atol nchw expected got, (0 <= rtol)%Q /\ (0 <= atol)%Q /\
+    compare rtol atol nchw expected got = true /\
+    ~ (length expected = length got /\
+       Forall2 (output_ok rtol atol) expected (normalize nchw expected got)).
+Proof. exact allclose_sound_refuted. Qed.
+Print Assumptions C18_allclose_sound_refuted.
+
+(* second, independent cause: equal kinds, int32 5 against int64 2^32+5 (wrap-around of the cast) *)
+Theorem C18_allclose_sound_refuted_int_wrap :
+  exists rtol atol nchw expected got, (0 <= rtol)%Q /\ (0 <= atol)%Q /\
+    compare rtol atol nchw expected got = true /\
+    Forall2 (fun e g => o_kind e = o_kind g) expected (normalize nchw expected got) /\
+    ~ Forall2 (output_ok rtol atol) expected (normalize nchw expected got).
+Proof. exact allclose_sound_refuted_int_wrap. Qed.
+Print Assumptions C18_allclose_sound_refuted_int_wrap.
+
+(* the repaired comparison rejects both witnesses *)
+Theorem C18_fixed_rejects_witnesses :
+  compare_fixed default_rtol default_atol [] w1_expected w1_got = false /\
+  compare_fixed default_rtol default_atol [] w2_expected w2_got = false.
+Proof. exact (conj w1_rejected_fixed w2_rejected_fixed). Qed.
+Print Assumptions C18_fixed_rejects_witnesses.
+
+(* What does hold of the code as it is now: soundness under the exact extra hypothesis that, per
+   output, the dtype kinds agree and the cast to the expected dtype changes no ORT value. *)
+Theorem C18_allclose_sound_partial :
+  forall rtol atol nchw expected got, (0 <= rtol)%Q -> (0 <= atol)%Q ->
+    Forall2 (fun e g' => cast_harmless e g' /\ (o_kind e = KFloating -> floats_only e /\ floats_only g'))
+            expected (normalize nchw expected got) ->
+    compare rtol atol nchw expected got = true ->
+    length expected = length got /\ Forall2 (output_ok rtol atol) expected (normalize nchw expected got).
+Proof. exact allclose_sound_partial. Qed.
+Print Assumptions C18_allclose_sound_partial.
+
+(* the hypothesis holds when the dtypes are equal ... *)
+Theorem C18_harmless_same_dtype :
+  forall e g', o_dtype g' = o_dtype e -> cast_harmless e g'.
+Proof. exact harmless_same_dtype. Qed.
+Print Assumptions C18_harmless_same_dtype.
+
+(* ... and for an integer ORT output whose values fit the integer type fn returned (int64 from ONNX
+   against the int32 JAX yields with x64 disabled) *)
+Theorem C18_harmless_int_fits :
+  forall e g' sb, int_info (o_dtype e) = Some sb -> (0 < snd sb)%Z -> o_kind g' = KInteger ->
+    Forall (fun v => exists z, v = XInt z /\ in_int sb z) (o_vals g') -> cast_harmless e g'.
+Proof. exact harmless_int_fits. Qed.
+Print Assumptions C18_harmless_int_fits.
+
+(* for complex elements [within] is stated on squared moduli; it implies the inequality on moduli *)
+Theorem C18_complex_within_is_modulus_test :
+  forall rtol atol D G : Q, (0 <= rtol)%Q -> (0 <= atol)%Q -> (0 <= G)%Q ->
+    cmod_within rtol atol D G ->
+    (sqrt (Q2R D) <= Q2R atol + Q2R rtol * sqrt (Q2R G))%R.
+Proof. exact cmod_within_modulus. Qed.
+Print Assumptions C18_complex_within_is_modulus_test.
+
+(* the JAX precision flag: restored for every prior value, every requested value, every behaviour of
+   the body (any flag value left behind) and both exits (normal / exception) *)
+Theorem C18_x64_flag_restored :
+  forall enabled prev (body : bool -> bool * exit_kind),
+    fst (temporary_x64 enabled prev body) = prev.
+Proof. exact x64_flag_restored. Qed.
+Print Assumptions C18_x64_flag_restored.
+
+Theorem C18_x64_body_sees_requested :
+  forall enabled prev (body : bool -> bool * exit_kind),
+    exists a, body enabled = (a, snd (temporary_x64 enabled prev body)).
+Proof. exact x64_body_sees_requested. Qed.
+Print Assumptions C18_x64_body_sees_requested.
